@@ -2,6 +2,8 @@ package props
 
 import (
 	"fmt"
+	"github.com/ethereum/go-ethereum/crypto"
+	"github.com/holiman/uint256"
 	"math/big"
 	"strings"
 
@@ -29,7 +31,7 @@ func init() {
 		Cases: func(seed uint64, tier string) []Case {
 			n := 150
 			if !quick(tier) {
-				n = 3000
+				n = 1500
 			}
 			var cs []Case
 			for i := 0; i < n; i++ {
@@ -487,9 +489,62 @@ func runC04Precompiles(c Case, res *CaseResult) {
 	res.Set("forks", fork.String())
 }
 
+// runC04Refusals: attempts that are refused before a frame exists (value or endowment beyond the balance, creator
+// nonce that cannot be incremented, occupied address) between effects of the caller. Such an attempt is a failed frame
+// without a body: it may leave nothing behind except what the reference leaves (the nonce bump of a collision).
+func runC04Refusals(c Case, res *CaseResult) {
+	fork := h.Fork(c.P[0])
+	init := h.InitCodeReturning([]byte{0x00})
+	huge := new(uint256.Int).Lsh(h.U(1), 120)
+	for variant := 0; variant < 4; variant++ {
+		a := h.NewAsm().MstoreBytes(0, init)
+		a.PushU(7).PushU(1).Op(h.SSTORE)
+		a.PushU(uint64(len(init))).PushU(0).PushU(0).Op(h.CREATE).PushU(10).Op(h.SSTORE)
+		if fork >= h.Constantinople {
+			a.PushU(5).PushU(uint64(len(init))).PushU(0).PushU(0).Op(h.CREATE2).PushU(11).Op(h.SSTORE)
+			a.PushU(5).PushU(uint64(len(init))).PushU(0).PushU(0).Op(h.CREATE2).PushU(12).Op(h.SSTORE) // same salt again: occupied
+		}
+		a.PushU(uint64(len(init))).PushU(0).Push(huge).Op(h.CREATE).PushU(13).Op(h.SSTORE)
+		a.PushU(0).PushU(0).PushU(0).PushU(0).Push(huge).PushAddr(h.ContractAddr(1)).PushU(50000).Op(h.CALL).PushU(14).Op(h.SSTORE)
+		a.PushU(0).PushU(0).PushU(0).PushU(0).PushU(2).PushAddr(h.ContractAddr(1)).PushU(50000).Op(h.CALL).PushU(15).Op(h.SSTORE)
+		a.PushU(8).PushU(2).Op(h.SSTORE, h.STOP)
+		callee := h.NewAsm().PushU(1).PushU(0).Op(h.SSTORE, h.STOP)
+		w := h.BaseWorld([][]byte{a.Bytes(), callee.Bytes()})
+		tx := h.TxSpec{Entry: h.ECall, From: h.Sender, To: h.ContractAddr(0), Input: []byte{1}, Gas: 3_000_000, Value: big.NewInt(1)}
+		switch variant {
+		case 1: // the creating contract's nonce is at its maximum
+			w.Get(h.ContractAddr(0)).Nonce = ^uint64(0)
+		case 2: // ... one below
+			w.Get(h.ContractAddr(0)).Nonce = ^uint64(0) - 1
+		case 3: // the transaction itself is a creation by a sender whose nonce is at its maximum
+			w.Get(h.Sender).Nonce = ^uint64(0)
+			tx = h.TxSpec{Entry: h.ECreate, From: h.Sender, Input: init, Gas: 1_000_000, Value: big.NewInt(1)}
+		}
+		sc := &scenario{Fork: fork, NContract: 2, World: w, Tx: tx}
+		fs, mon, pre, ir := monitoredRun(sc, nil, variant%2 == 0)
+		label := fmt.Sprintf("refusals-%d:none", variant)
+		checkC04Run(res, sc, fs, mon, pre, ir, label)
+		// what is left behind must be what go-ethereum v1.12.0 leaves behind
+		rs := h.NewRefSession(w, h.EnvSpec{Fork: fork}, h.RefOpts{})
+		rres := rs.Invoke(tx)
+		for _, acct := range w.Accts {
+			mon.touch(acct.Addr)
+		}
+		mon.touch(crypto.CreateAddress(h.ContractAddr(0), 1))
+		mon.touch(crypto.CreateAddress(h.ContractAddr(0), ^uint64(0)-1))
+		if want, got := mon.sig(rs.DB), mon.sig(fs.DB); want != got || h.ErrClass(rres.Err) != h.ErrClass(ir.Err) {
+			res.Fail(Key("refused-attempt-effects", labelClass(label)), "after refused call/create attempts the state differs from what the reference leaves (a refused attempt must leave nothing of its own behind)", sc.desc(), label, "actual:   "+got, "expected: "+want)
+		}
+		res.Count("refusal_runs", 1)
+		res.Evals++
+	}
+	res.Set("forks", fork.String())
+}
+
 func runC04(c Case, tier string) (res CaseResult) {
 	if c.Kind == "precompiles" {
 		runC04Precompiles(c, &res)
+		runC04Refusals(c, &res)
 		return
 	}
 	r := h.NewRNG(c.Seed)
